@@ -80,16 +80,16 @@ def percentEncodedWellFormed : Bytes → Bool
       | _ => false
     else (32 ≤ b.toNat && b.toNat ≤ 126) && percentEncodedWellFormed rest
 
-def statusName : Bytes := Ascii.ofString "grpc-status"
-def messageName : Bytes := Ascii.ofString "grpc-message"
-def detailsName : Bytes := Ascii.ofString "grpc-status-details-bin"
+def statusName : Bytes := HMap.name "grpc-status"
+def messageName : Bytes := HMap.name "grpc-message"
+def detailsName : Bytes := HMap.name "grpc-status-details-bin"
 
 /-- names that are not "custom metadata" for a status: the six reserved by the protocol (the
 property's list) and the three that carry the status itself -/
 def protocolNames : List Bytes :=
-  [Ascii.ofString "te", Ascii.ofString "user-agent", Ascii.ofString "content-type",
-   Ascii.ofString "grpc-status", Ascii.ofString "grpc-message", Ascii.ofString "grpc-message-type",
-   Ascii.ofString "grpc-status-details-bin"]
+  [HMap.name "te", HMap.name "user-agent", HMap.name "content-type",
+   HMap.name "grpc-status", HMap.name "grpc-message", HMap.name "grpc-message-type",
+   HMap.name "grpc-status-details-bin"]
 
 /-- The status a reader must obtain from a header block that carries a `grpc-status`:
 `none` in a field = that field is undecodable. -/
